@@ -437,7 +437,10 @@ theorem applyCmd_counters (auto : Bool) (d d' : Data) (c : Cmd) (h : applyCmd au
     unfold dropShard withShardGroup; split <;> exact CountersLe.refl d
   | copyOwner s n =>
     simp only [applyCmd] at h; cases h
-    unfold copyShardOwner withShardGroup; split <;> exact CountersLe.refl d
+    unfold copyShardOwner withShardGroup
+    split
+    · exact CountersLe.refl d
+    · split <;> exact CountersLe.refl d
   | removeOwner s n age =>
     simp only [applyCmd] at h; cases h
     unfold removeShardOwner withShardGroup; split <;> exact CountersLe.refl d
@@ -511,6 +514,25 @@ theorem counters_never_decrease (auto : Bool) (d : Data) (log : Log) : CountersL
       have := applyCmd_counters auto d d' e.1 hd
       exact ⟨this.1, this.2⟩
     · exact CountersLe.refl d
+
+/-! ### an owner that is handed a shard is a data node -/
+
+/-- **Only a data node becomes an owner through `CopyShardOwner`**: a command naming a node
+that is not (or no longer — it may have been removed while the copy was under way) a data
+node changes nothing. (The pinned code added it: a shard owned by a removed node; repaired in
+/repo, see DESIGN 7.1.) -/
+theorem copy_owner_needs_data_node (d : Data) (id n : Nat) (h : d.dataNodes.any (·.id == n) = false) :
+    copyShardOwner d id n = d := by
+  unfold copyShardOwner
+  simp [h]
+
+/-- and when it changes an owner list, the node it adds is one: for every shard of the result,
+an owner that the shard did not have before is `n`, and `n` is a data node -/
+theorem copy_owner_adds_data_node (d : Data) (id n : Nat) (h : copyShardOwner d id n ≠ d) :
+    d.dataNodes.any (·.id == n) = true := by
+  cases hn : d.dataNodes.any (·.id == n)
+  · exact absurd (copy_owner_needs_data_node d id n hn) h
+  · rfl
 
 example : IdsOK ({} : Data) := by
   refine ⟨?_, ?_, ?_, ?_⟩ <;> simp [allGroups]
